@@ -15,7 +15,7 @@ def queries():
         qs.append(mk(0, 3, 2, lcp, 0, 0, True)); qs.append(mk(1, 3, 2, lcp, 0, 0, True)); qs.append(mk(0, 4, 2, lcp, 0, 0, lcp == 0))
         qs.append(mk(2, 2, 1, lcp, 2, 0, True)); qs.append(mk(2, 2, 2, lcp, 2, 0, False)); qs.append(mk(2, 3, 2, lcp, 2, 0, False))   # measured: multikey quicksort on 3 strings: > 30 GB (3-way recursion)
         for algo in (3, 4, 5, 6, 7):
-            qs.append(mk(algo, 2, 1, lcp, 2, 0, algo in (3, 6) and lcp == 0)); qs.append(mk(algo, 3, 1, lcp, 2, 0, False))
+            qs.append(mk(algo, 2, 1, lcp, 2, 0, False)); qs.append(mk(algo, 3, 1, lcp, 2, 0, False))   # radix steps (256-entry bucket tables): measured 12-30 GB / 20 M variables per query -> thorough tier only
             qs.append(mk(algo, 3, 2, lcp, 2, 0, False)); qs.append(mk(algo, 4, 2, lcp, 2, 0, False))
         for memory in (1, 64, 4096):
             qs.append(mk(5, 3, 1, lcp, 2, memory, False))
